@@ -276,6 +276,21 @@ func (u *Unit) oblige(s *State, name string, props []string, kind, goal string, 
 	if pos.IsValid() {
 		o.Pos = u.p.prog.Fset.Position(pos)
 	}
+	if fs := u.p.findings[name]; len(fs) > 0 && s.cells != nil && u.fn != nil {
+		for _, f := range fs {
+			if f.Class == "" {
+				o.Classes = append(o.Classes, "true")
+				continue
+			}
+			env := u.bodyEnv(s, u.fn)
+			env.paramsEntry = true
+			c, err := env.formula(f.Class)
+			if err != nil {
+				panic(abortUnit{fmt.Sprintf("known_findings.json: class of %s: %v", f.Obligation, err)})
+			}
+			o.Classes = append(o.Classes, c)
+		}
+	}
 	if u.fc != nil && s.cells != nil {
 		// replay terms and guide formulas are evaluated in the state of the obligation (locals are visible)
 		for _, kv := range u.fc.ReplayKV {
@@ -603,9 +618,14 @@ func (u *Unit) step(s *State, in ssa.Instruction) {
 			t := u.load(s, u.addrOf(s, x.X))
 			t.T = x.Type()
 			s.regs[x] = t
+			if _, isPtr := x.Type().Underlying().(*types.Pointer); isPtr && t.Sort == "Int" && strings.HasPrefix(t.S, "(") {
+				// a pointer read from memory refers to an object that exists already
+				s.assume(fmt.Sprintf("(<= %s (+ allocbase %d))", t.S, s.nalloc))
+			}
 			if t.Sort == "Slice" && !strings.HasPrefix(t.S, "(mk_slice") {
 				// every slice value in memory is well formed
-				w := fmt.Sprintf("(wfSlice %s)", t.S)
+				// ... and refers to a region that exists already (not to one allocated later on this path)
+				w := fmt.Sprintf("(and (wfSlice %s) (<= (sl_arr %s) (+ allocbase %d)))", t.S, t.S, s.nalloc)
 				dup := false
 				for i := len(s.pc) - 1; i >= 0 && i >= len(s.pc)-40; i-- {
 					if s.pc[i] == w {
@@ -1034,12 +1054,15 @@ func (u *Unit) closureRequires(s *State, mc *ssa.MakeClosure, fn *ssa.Function) 
 		}
 	}
 	for _, c := range fc.Clauses {
-		if c.Kind != "requires" {
+		if c.Kind != "requires" && c.Kind != "closure-invariant" {
 			continue
 		}
 		env := &Env{u: u, s: s, old: s, names: map[string]Term{}, fn: fn, pkg: fn.Pkg}
 		g, err := env.formula(c.Expr)
 		if err != nil {
+			if c.Kind == "closure-invariant" {
+				panic(abortUnit{fmt.Sprintf("%s:%d: %v", c.File, c.Line, err)})
+			}
 			u.note("precondition %s of closure %s is not about captured variables only; not checked at creation", c.Label, u.fnShort(fn))
 			continue
 		}
